@@ -146,18 +146,22 @@ Theorem C10_refuted_receiver : select_records_on_receiver = true -> exists d1 rv
 Proof. refute_if ltac:(eexists; eexists; eexists; refute). Qed.
 
 (** witnesses that rest on the hand-written part of the model (sqlglot's quoting / parsing as defined in C10.Names, C10.Model) *)
-Theorem C10_refuted_join_quoted_key_raises : exists ops ns',
+Definition join_key_looked_up_quoted : bool := negb (join_key_bare gen_cfg).
+Definition orderby_reparses_bare_keys : bool := negb (orderby_identify gen_cfg).
+Definition schema_keyed_by_engine_quoting : bool := negb (schema_key_spark gen_cfg).
+
+Theorem C10_refuted_join_quoted_key_raises : join_key_looked_up_quoted = true -> exists ops ns',
   run' (create' [s "AB"; s "c d"]) ops = None /\ spec' [s "AB"; s "c d"] ops = Some ns'.
-Proof. exists [OJoin [s "C D"; s "Other"] [s "c d"]]. eexists. refute. Qed.
+Proof. refute_if ltac:(exists [OJoin [s "C D"; s "Other"] [s "c d"]]; eexists; refute). Qed.
 
-Theorem C10_refuted_orderBy_reserved_word_raises : exists ops ns',
+Theorem C10_refuted_orderBy_reserved_word_raises : orderby_reparses_bare_keys = true -> exists ops ns',
   run' (create' [s "select"; s "zz"]) ops = None /\ spec' [s "select"; s "zz"] ops = Some ns'.
-Proof. exists [OOrderBy [s "select"]]. eexists. refute. Qed.
+Proof. refute_if ltac:(exists [OOrderBy [s "select"]]; eexists; refute). Qed.
 
-Theorem C10_refuted_leading_digit_schema : exists d,
+Theorem C10_refuted_leading_digit_schema : schema_keyed_by_engine_quoting = true -> exists d,
   d = create' [s "C D"; s "1a"] /\ columns gen_cfg d = [s "C D"; s "1a"]
   /\ schema anorm gen_cfg d = [s "C D"; s "`1a`"].
-Proof. eexists. refute. Qed.
+Proof. refute_if ltac:(eexists; refute). Qed.
 
 Theorem C10_refuted_same_column_twice : exists ops d ns',
   run' (create' [s "AB"; s "Xy"]) ops = Some d /\ spec' [s "AB"; s "Xy"] ops = Some ns' /\ columns gen_cfg d <> ns'
@@ -166,13 +170,15 @@ Proof. exists [OSelect [SCol (s "ab"); SCol (s "AB")]]. eexists. eexists. refute
 
 Theorem C10_not_full : ~ C10_full.
 Proof.
-  intros [H _]. specialize (H wu [s "C D"; s "1a"] [] [s "C D"; s "1a"] eq_refl).
-  destruct H as [d [Hr [_ [_ [Hs _]]]]]. vm_compute in Hr. injection Hr as <-. vm_compute in Hs. discriminate.
+  intros [H _].
+  specialize (H wu [s "AB"; s "Xy"] [OSelect [SCol (s "ab"); SCol (s "AB")]] [s "ab"; s "AB"] eq_refl).
+  destruct H as [d [Hr [Hc _]]]. vm_compute in Hr. injection Hr as <-. vm_compute in Hc. discriminate.
 Qed.
 
 (** the facts under which the conditional witnesses speak, as they are on this run *)
 Eval vm_compute in (groupagg_records_nothing, toDF_records_nothing, join_records_nothing, drop_reselects_publicly,
-                    fillna_reselects_publicly, dropna_reselects_publicly, select_records_on_receiver, str_recorded_raw).
+                    fillna_reselects_publicly, dropna_reselects_publicly, select_records_on_receiver, str_recorded_raw,
+                    join_key_looked_up_quoted, orderby_reparses_bare_keys, schema_keyed_by_engine_quoting).
 Print Assumptions C10_refuted_groupby_agg.
 Print Assumptions C10_refuted_receiver.
 Print Assumptions C10_not_full.
